@@ -1,7 +1,7 @@
 (* C07 - Printing an evaluated value as CUE and evaluating it again gives the same value.
    Value-level printing of CoreCUE normal forms, the option profiles, the predeclared-range
    rewriting of bounds.go.  Only statements, closed by [exact], and Print Assumptions. *)
-From Verif Require Import Core.Syntax Core.Eval Print.Model Print.ScalProofs Print.Proofs Print.ProjProofs Print.Examples.
+From Verif Require Import Core.Syntax Core.Eval Print.Model Print.ScalProofs Print.Proofs Print.ProjProofs Print.Examples Print.Impl Print.ImplProofs.
 From Coq Require Import List ZArith NArith.
 Import ListNotations.
 
@@ -68,6 +68,35 @@ Print Assumptions C07_canon_scal_equiv.
 Theorem C07_range_rewrite_sound : forall a cs, psat_all a (range_rewrite cs) = sat_all a cs.
 Proof. exact range_rewrite_sound. Qed.
 Print Assumptions C07_range_rewrite_sound.
+
+(* ---- implementation layer of the definition-mode profiles (expr.go mergeValues + export.Def at
+   the root of the printed value) ---- *)
+(* it agrees with the specification on conjunct lists of plain struct literals ... *)
+Theorem C07_impl_def_plain_sound : forall labs atoms fuel es cs,
+  es <> [] -> forallb plain_lit es = true ->
+  evalNode labs atoms fuel (mkConj false [impl_def_root es] :: cs) = evalNode labs atoms fuel (mkConj false es :: cs).
+Proof. exact impl_def_plain_sound. Qed.
+Print Assumptions C07_impl_def_plain_sound.
+
+(* ... and is refuted on a close()d value that receives a further conjunct (known finding F10:
+   close({a: 1, b?: int}) & {a: int} is printed as close({...}) & close({a: int})) ... *)
+Theorem C07_impl_def_refuted_close :
+  exists cs, evalNode w_labs w_atoms 10 (impl_def cs) <> evalNode w_labs w_atoms 10 cs.
+Proof. exact impl_def_refuted_close. Qed.
+Print Assumptions C07_impl_def_refuted_close.
+
+(* ... and on a recursively closed value that receives a further conjunct (known finding F11:
+   everything is wrapped in _#def) *)
+Theorem C07_impl_def_refuted_def :
+  exists cs, evalNode w_labs w_atoms 10 (impl_def cs) <> evalNode w_labs w_atoms 10 cs.
+Proof. exact impl_def_refuted_def. Qed.
+Print Assumptions C07_impl_def_refuted_def.
+
+Example C07_w_close_observable :
+  (match evalNode w_labs w_atoms 10 w_close with RStruct fs o => nth 1 (map fst fs) PAbsent = POptional /\ nth 1 o false = true | _ => False end) /\
+  (match evalNode w_labs w_atoms 10 (impl_def w_close) with RStruct fs o => nth 1 o true = false | _ => False end).
+Proof. exact w_close_observable. Qed.
+Print Assumptions C07_w_close_observable.
 
 (* non-vacuity *)
 Example C07_ex_roundtrip :
